@@ -9,9 +9,10 @@ current Go source: calling the rendered closure `Len()` times from its zero stat
 vertices in storage order, without a fault (in particular without running out of loop fuel). -/
 set_option linter.unusedVariables false
 set_option linter.unusedSimpArgs false
+set_option linter.unusedSectionVars false
 namespace GeomV.C04
 open GeomV GeomV.C04.Spec
-variable {α : Type}
+variable {α : Type} [LT α] [DecidableLT α]
 
 theorem drain_eq_drainStep {σ : Type} (g : Geom α) (enc : σ → ItSt) (step : σ → Except Fault (Pt α × σ))
     (h : ∀ s, next g (enc s) = match step s with | .error e => .error e | .ok (v, s') => .ok (v, enc s')) :
